@@ -549,6 +549,10 @@ class GateMemoizer:
         """Basically just replace all lists with tuples, recursively."""
         if isinstance(obj, (list, tuple)):
             return tuple(cls._make_hashable(v) for v in obj)
+        elif isinstance(obj, (int, float)):
+            # 1, 1.0 and True (or 0.0 and -0.0) are equal as keys but are
+            # different literals
+            return (type(obj).__name__, repr(obj))
         else:
             return obj
 
